@@ -2,6 +2,7 @@ package props
 
 import (
 	"fmt"
+	"verifharness/model"
 
 	corev1 "k8s.io/api/core/v1"
 
@@ -352,7 +353,32 @@ func monC14(rep Rep, v *View) (k, m int, bystander bool) {
 		return
 	}
 	if len(v.Odd) > 0 {
-		return
+		// with pods named S-<digits> that are not the canonical spelling of an ordinal around, vacancies are not
+		// judged (such a pod may hold a slot). What is judged: every live pod of the set - canonical or not - whose
+		// number lies outside the desired set is asked to go in this reconcile.
+		deletedNames := map[string]bool{}
+		for _, a := range v.Rec.Actions {
+			if a.Resource == "pods" && a.Verb == "delete" {
+				deletedNames[a.Name] = true
+			}
+		}
+		var owed []string
+		for _, p := range v.Rec.CachePods {
+			if p.Namespace != v.Set.Namespace || p.DeletionTimestamp != nil || !isControlledBy(p.OwnerReferences, v.Set.UID) || !v.Selector.Matches(labelsOf(p)) {
+				continue
+			}
+			parent, ord, ok := model.ParsePodName(p.Name)
+			if !ok || parent != v.Name || v.Dset[ord] {
+				continue
+			}
+			owed = append(owed, p.Name)
+		}
+		for _, name := range owed {
+			if !deletedNames[name] {
+				rep.Violate("parallel/condemned-not-deleted", "Parallel reconcile saw live pods outside the desired set %v but did not delete %s%s", owed, name, ctx(v))
+			}
+		}
+		return 0, len(owed), false
 	}
 	acts := v.PodActs()
 	created, deleted := map[int]bool{}, map[int]bool{}
